@@ -270,6 +270,36 @@ def overwrite (g : Grid) (h : Handle) : Grid × R Unit :=
 def createMutableFile (g : Grid) : Grid × Handle :=
   (g ++ [⟨.mfile, [], 0⟩], ⟨g.length, true⟩)
 
+/-! ## directory contents as stored (`_pack_normalized_children` / `DirectoryNode._unpack_contents`) -/
+
+/-- one serialized entry: name, `ro_uri` in clear, `rwcapdata` = the child's write cap encrypted under the
+directory's write key (absent when the child has no write cap) -/
+structure Entry where
+  name : Nat
+  ro : Cap
+  rwdata : Option Cap
+  deriving DecidableEq, Repr
+
+/-- `_pack_normalized_children` for one child node: `rw_uri = child.get_write_uri()`, `ro_uri = child.get_readonly_uri()` -/
+def packChild (name : Nat) (child : Handle) : Entry :=
+  ⟨name, ⟨child.addr, .read⟩, if child.w then some ⟨child.addr, .write⟩ else none⟩
+
+/-- `_unpack_contents` for one entry as read by a view of the directory that is `writeable` or not:
+`rw_uri` is decrypted only `if writeable` (a read-only view has no write key to decrypt with), then
+`create_from_cap(rw_uri, ro_uri)` builds the child from `rw_uri or ro_uri` -/
+def unpackChild (g : Grid) (writeable : Bool) (e : Entry) : Handle :=
+  capHandle g ((if writeable then e.rwdata else none).getD e.ro)
+
+def unpackContents (g : Grid) (writeable : Bool) (es : List Entry) : List (Nat × Handle) :=
+  es.map (fun e => (e.name, unpackChild g writeable e))
+
+/-- the stored form of a `Link` of the grid model -/
+def Link.toEntry (n : Nat) (l : Link) : Entry :=
+  ⟨n, ⟨l.addr, .read⟩, if l.rw then some ⟨l.addr, .write⟩ else none⟩
+
+/-- the stored entries of the directory at `a` -/
+def storedEntries (g : Grid) (a : Nat) : List Entry := (entriesOf g a).map (fun e => Link.toEntry e.1 e.2)
+
 /-! ## the gateway's node cache (`NodeMaker.create_from_cap`) -/
 
 /-- memo key: `b"I" + bigcap` / `b"M" + bigcap` -/
@@ -553,6 +583,18 @@ def serve (fixed : Bool) (g : Grid) (c : Cap) (path : List Nat) (r : Req) : Grid
   match traverse g (rootHandler g c) r (path.getLast?.getD 0) path with
   | (g1, .ok hd) => render fixed g1 hd r
   | (g1, .err e) => (g1, .err e)
+
+/-! ## error responses: which cap strings the body of a refused request shows -/
+
+/-- the cap strings in the request *URL* (path and query string): the root cap, `uri=` of a POST, `to_dir=` -/
+def requestUrlCaps (c : Cap) (r : Req) : List Cap :=
+  [c] ++ (if r.meth == .post then r.cap.toList else []) ++ (r.toDir.map (·.1)).toList
+
+/-- `humanize_exception` texts, the "file in the way" / "no such child" pages and the traceback page name
+exception classes, child names and source lines only; the one page that echoes anything of the request is
+Twisted's 405 "Method Not Allowed" page (POST to a resource without `render_POST`), which prints the request URI -/
+def refusedBodyCaps (c : Cap) (r : Req) (e : Err) : List Cap :=
+  if e == .notAllowed && r.meth == .post then requestUrlCaps c r else []
 
 /-! ## renderers: which cap strings a response shows -/
 
